@@ -37,152 +37,7 @@ use crate::{
 // generic visitor over `Debug` output
 // ---------------------------------------------------------------------------------------------
 
-#[derive(Clone, Debug, PartialEq)]
-pub enum Leaf {
-    Float(f64),
-    Int(i128),
-    Other(String),
-}
-
-/// Parses the `{:?}` rendering of a (nested) struct into `(path, leaf)` pairs.  Understands
-/// `Name { a: v, .. }`, `Name(v, ..)`, `Some(v)`, `None`, `[v, ..]`, numbers, identifiers, strings.
-pub fn debug_leaves(s: &str) -> Result<Vec<(String, Leaf)>, String> {
-    struct P<'a> {
-        b: &'a [u8],
-        i: usize,
-        out: Vec<(String, Leaf)>,
-    }
-    impl P<'_> {
-        fn ws(&mut self) {
-            while self.i < self.b.len() && (self.b[self.i] as char).is_whitespace() {
-                self.i += 1;
-            }
-        }
-        fn peek(&mut self) -> Option<u8> {
-            self.ws();
-            self.b.get(self.i).copied()
-        }
-        fn ident(&mut self) -> String {
-            self.ws();
-            let st = self.i;
-            while self.i < self.b.len() {
-                let c = self.b[self.i] as char;
-                if c.is_alphanumeric() || c == '_' || c == '.' || c == '-' || c == '+' || c == ':' && self.b.get(self.i + 1) == Some(&b':') {
-                    self.i += if c == ':' { 2 } else { 1 };
-                } else {
-                    break;
-                }
-            }
-            String::from_utf8_lossy(&self.b[st..self.i]).into_owned()
-        }
-        fn value(&mut self, path: &str) -> Result<(), String> {
-            match self.peek() {
-                None => Err("unexpected end".into()),
-                Some(b'[') => {
-                    self.i += 1;
-                    let mut k = 0;
-                    loop {
-                        if self.peek() == Some(b']') {
-                            self.i += 1;
-                            break;
-                        }
-                        self.value(&format!("{path}[{k}]"))?;
-                        k += 1;
-                        if self.peek() == Some(b',') {
-                            self.i += 1;
-                        }
-                    }
-                    Ok(())
-                }
-                Some(b'"') => {
-                    self.i += 1;
-                    let st = self.i;
-                    while self.i < self.b.len() && self.b[self.i] != b'"' {
-                        if self.b[self.i] == b'\\' {
-                            self.i += 1;
-                        }
-                        self.i += 1;
-                    }
-                    let t = String::from_utf8_lossy(&self.b[st..self.i.min(self.b.len())]).into_owned();
-                    self.i += 1;
-                    self.out.push((path.to_owned(), Leaf::Other(t)));
-                    Ok(())
-                }
-                Some(_) => {
-                    let id = self.ident();
-                    if id.is_empty() {
-                        return Err(format!("unexpected byte at {}", self.i));
-                    }
-                    match self.peek() {
-                        Some(b'{') => {
-                            self.i += 1;
-                            loop {
-                                if self.peek() == Some(b'}') {
-                                    self.i += 1;
-                                    break;
-                                }
-                                let name = self.ident();
-                                if name == ".." {
-                                    continue;
-                                }
-                                if self.peek() != Some(b':') {
-                                    return Err(format!("expected ':' after field {name}"));
-                                }
-                                self.i += 1;
-                                let p = if path.is_empty() { name } else { format!("{path}.{name}") };
-                                self.value(&p)?;
-                                if self.peek() == Some(b',') {
-                                    self.i += 1;
-                                }
-                            }
-                            Ok(())
-                        }
-                        Some(b'(') => {
-                            self.i += 1;
-                            let mut k = 0;
-                            loop {
-                                if self.peek() == Some(b')') {
-                                    self.i += 1;
-                                    break;
-                                }
-                                let p = if id == "Some" { path.to_owned() } else { format!("{path}.{k}") };
-                                self.value(&p)?;
-                                k += 1;
-                                if self.peek() == Some(b',') {
-                                    self.i += 1;
-                                }
-                            }
-                            Ok(())
-                        }
-                        _ => {
-                            self.out.push((path.to_owned(), classify(&id)));
-                            Ok(())
-                        }
-                    }
-                }
-            }
-        }
-    }
-    fn classify(t: &str) -> Leaf {
-        let floaty = t == "NaN" || t == "inf" || t == "-inf" || t.contains('.') || ((t.contains('e') || t.contains('E')) && t.chars().next().is_some_and(|c| c.is_ascii_digit() || c == '-'));
-        if floaty {
-            if let Ok(v) = t.parse::<f64>() {
-                return Leaf::Float(v);
-            }
-        }
-        if let Ok(v) = t.parse::<i128>() {
-            return Leaf::Int(v);
-        }
-        Leaf::Other(t.to_owned())
-    }
-    let mut p = P { b: s.as_bytes(), i: 0, out: Vec::new() };
-    p.value("")?;
-    p.ws();
-    if p.i != p.b.len() {
-        return Err(format!("trailing input at {}", p.i));
-    }
-    Ok(p.out)
-}
+pub use crate::debugvis::{debug_leaves, Leaf};
 
 /// Fields that may legitimately be negative (everything else must be `>= 0`):
 /// `ar` — the approach rate reported back from a preempt above 1800 ms (EZ / HT on AR 0 gives −5).
